@@ -650,7 +650,22 @@ class Sym:
     def coll_state(self, v: Val, st: State) -> CollState | None:
         return st.store.get(key(v)) if isinstance(v, Coll) else None
 
+    def record_fields(self, ci: ClassInfo) -> list[str]:
+        """Declared fields of a NamedTuple / dataclass in declaration order (base classes first)."""
+        out: list[str] = []
+        for c in reversed(self.repo.mro(ci)):
+            for a in c.ann_attrs:
+                if a not in out:
+                    out.append(a)
+        return out
+
+    def is_namedtuple(self, ci: ClassInfo | None) -> bool:
+        return ci is not None and any(b.split(".")[-1] == "NamedTuple" for c in self.repo.mro(ci) for b in c.bases)
+
     def exact_items(self, v: Val, st: State) -> list[tuple[Val, Formula]] | None:
+        if isinstance(v, Ref) and v.cls and self.is_namedtuple(self.repo.classes.get(v.cls)):
+            # a NamedTuple record is the tuple of its fields (unpacking, reversed(), *record, record[0])
+            return [(st.store.get(f"{key(v)}.{f}", Opq(f"{key(v)}.{f}", kind="attr")), TRUE) for f in self.record_fields(self.repo.classes[v.cls])]
         cs = self.coll_state(v, st)
         if cs is not None and cs.exact and cs.kind != "dict":
             return list(cs.items)
@@ -1356,6 +1371,11 @@ class Sym:
         if isinstance(fval, Opq) and fval.kind == "libref":
             return self.libcall(fval.key, args, kwargs, st, ctx, e, alldeps)
         # ---- methods on collections / strings
+        if isinstance(base, Ref) and f.attr == "_replace" and not args and not star and base.cls and self.is_namedtuple(self.repo.classes.get(base.cls)):
+            ref = Ref(self.fresh(), base.cls)
+            for fname in self.record_fields(self.repo.classes[base.cls]):
+                st.store[f"{key(ref)}.{fname}"] = kwargs[fname] if fname in kwargs else self.get_attr(base, fname, st, f.value, ctx)
+            return ref
         if base is not None:
             r = self.method_call(base, f.attr, args, kwargs, st, ctx, e, alldeps)
             if r is not None:
@@ -1626,7 +1646,7 @@ class Sym:
             kind = {"frozenset": "set", "sorted": "list", "reversed": "list"}.get(name, name)
             items = self.exact_items(args[0], st)
             if items is not None:
-                return self.new_coll(st, kind, items, True, complete_of=self.complete_of(args[0], st))
+                return self.new_coll(st, kind, items[::-1] if name == "reversed" else items, True, complete_of=self.complete_of(args[0], st))
             return self.new_coll(st, kind, [], False, complete_of=self.complete_of(args[0], st), deps=deps, filt=self.filt_of(args[0], st))
         if name == "getattr" and len(args) >= 2:
             n = args[1]
@@ -1673,6 +1693,8 @@ class Sym:
                         st.store[f"{key(ref)}.{fname}"] = kwargs[fname] if fname in kwargs else self.get_attr(obj, fname, st, e.args[0], ctx)
                 self.emit("call", "replace", args, None, st, ctx, e, ("lib", fq), ref)
                 return ref
+        if fq == "dataclasses.astuple" and len(args) == 1 and isinstance(args[0], Ref) and args[0].cls in self.repo.classes:
+            return self.new_coll(st, "tuple", [(self.get_attr(args[0], fname, st, e.args[0], ctx), TRUE) for fname in self.record_fields(self.repo.classes[args[0].cls])])
         if fq in RE_SEARCH and len(args) >= 2:
             res = Opq(f"{fq}({key(args[0])}, {key(args[1])})", alldeps, kind="search", meta=(self.deps(args[0], st), self.deps(args[1], st)))
             self.emit("call", fq, args, None, st, ctx, e, ("lib", fq), res)
